@@ -381,18 +381,103 @@ Definition closed_state (st : rstate) (top : option Z) (stk : list (option Z)) (
      s_attributes := s_attributes st; s_base_anchor := s_base_anchor st |}.
 Lemma close_lin fo i a k st top stk : lin_ok fo i = true -> l_close i = Some a -> cont k ->
   s_branch_anchor st = rev (top :: stk) ->
-  close_branch (lin_tail_str i ++ k) st = Ok (closed_state st top stk a).
+  close_branch (lin_tail_str i ++ k) 0 st = Ok (closed_state st top stk a, Datatypes.S (length (lin_prefix i))).
 Proof.
   intros Hok Hc Hk Hba. pose proof (lin_prefix_inner fo i Hok) as Hp.
   unfold close_branch. rewrite Hba, rev_involutive. rewrite lin_tail_split, Hc. cbn [close_str app].
+  change (fnc_from ?r ?c 0) with (fnc0 r c).
   rewrite fnc0_spec, (find_idx_inner _ fnc_eon_a Hp incl_eon_a). cbn [find_idx].
   change (str_in [")"%char] fnc_eon_a) with true. cbv iota. rewrite Nat.add_0_r. cbn [bind].
   rewrite !nth_error_after.
   destruct a as [s|]; cbn [osym_str app].
   - assert (E2 : ch_eq (nth_error (sym_char s :: k) 1) "|"%char = false) by (destruct Hk; reflexivity).
     cbn [nth_error] in *. rewrite E2. assert (E1 : ch_eq (Some (sym_char s)) "|"%char = false) by (destruct s; reflexivity).
-    rewrite E1. cbn [orb]. rewrite sym_mem, sym_lookup. cbn [bind]. reflexivity.
-  - destruct Hk; cbn; reflexivity.
+    rewrite E1. cbn [orb andb]. rewrite sym_mem, sym_lookup. cbn [bind]. rewrite Nat.add_1_r. reflexivity.
+  - rewrite Nat.add_1_r. destruct Hk; cbn; reflexivity.
+Qed.
+
+(** the closing loop (lines 268-354) *)
+Definition close_all (rest : pystr) (st : rstate) : res rstate := close_loop (Datatypes.S (length rest)) rest 0 st.
+Lemma close_loop_0 f rest st : close_loop (Datatypes.S f) rest 0 st =
+  (io <- fnc0 rest fnc_next_open ;; ic <- fnc0 rest fnc_next_close ;;
+   if Nat.ltb ic io then '(st1, pos1) <- close_branch rest 0 st ;; close_loop f rest pos1 st1 else Ok st).
+Proof. reflexivity. Qed.
+Lemma close_loop_stop f rest pos st : (pos <= length rest)%nat ->
+  Nat.ltb (find_idx (skipn pos rest) fnc_next_close) (find_idx (skipn pos rest) fnc_next_open) = false ->
+  close_loop (Datatypes.S f) rest pos st = Ok st.
+Proof.
+  intros Hpos H. cbn [close_loop]. rewrite !fnc_from_spec by assumption. cbn [bind].
+  assert (E : Nat.ltb (pos + find_idx (skipn pos rest) fnc_next_close) (pos + find_idx (skipn pos rest) fnc_next_open) = false).
+  { apply Nat.ltb_ge. apply Nat.ltb_ge in H. lia. }
+  now rewrite E.
+Qed.
+Lemma close_loop_inv {T} (f : rstate -> T) :
+  (forall rest pos st st1 p1, close_branch rest pos st = Ok (st1, p1) -> f st1 = f st) ->
+  forall fuel rest pos st st1, close_loop fuel rest pos st = Ok st1 -> f st1 = f st.
+Proof.
+  intros Hf. induction fuel as [|n IH]; intros rest pos st st1 H; [discriminate|]. cbn [close_loop] in H.
+  destruct (fnc_from rest fnc_next_open pos) as [io|]; cbn [bind] in H; [|discriminate].
+  destruct (fnc_from rest fnc_next_close pos) as [ic|]; cbn [bind] in H; [|discriminate].
+  destruct (Nat.ltb ic io); [|now injection H as <-].
+  destruct (close_branch rest pos st) as [[st2 p2]|] eqn:E; cbn [bind] in H; [|discriminate].
+  rewrite (IH _ _ _ _ H). now apply (Hf rest pos st st2 p2).
+Qed.
+Lemma close_branch_fields rest pos st st1 p1 : close_branch rest pos st = Ok (st1, p1) ->
+  s_cycle st1 = s_cycle st /\ s_attributes st1 = s_attributes st.
+Proof.
+  unfold close_branch. destruct (rev (s_branch_anchor st)) as [|a ra]; [discriminate|].
+  destruct (fnc_from rest fnc_eon_a pos) as [eon_a|]; cbn [bind]; [|discriminate].
+  match goal with |- (bind ?m _ = _ -> _) => destruct m as [[[[[[g cu] pn] ba] rc] pb]|] end; cbn [bind]; [|discriminate].
+  intros H. injection H as <- _. split; reflexivity.
+Qed.
+Lemma close_all_cycle rest st st1 : close_all rest st = Ok st1 -> s_cycle st1 = s_cycle st.
+Proof. apply (close_loop_inv s_cycle). intros r p s0 s1 p1 H. now destruct (close_branch_fields r p s0 s1 p1 H). Qed.
+Lemma close_all_attr rest st st1 : close_all rest st = Ok st1 -> s_attributes st1 = s_attributes st.
+Proof. apply (close_loop_inv s_attributes). intros r p s0 s1 p1 H. now destruct (close_branch_fields r p s0 s1 p1 H). Qed.
+Lemma close_all_stop rest st io ic : fnc0 rest fnc_next_open = Ok io -> fnc0 rest fnc_next_close = Ok ic ->
+  Nat.ltb ic io = false -> close_all rest st = Ok st.
+Proof. intros Eio Eic Elt. unfold close_all. rewrite close_loop_0, Eio, Eic. cbn [bind]. now rewrite Elt. Qed.
+Lemma skipn_after {A} (p : list A) c z : skipn (Datatypes.S (length p)) (p ++ c :: z) = z.
+Proof. induction p as [|x r IH]; [reflexivity|]. cbn [length app skipn]. exact IH. Qed.
+(** the first round when the text behind the node is "inner characters, then ')'" *)
+Lemma close_all_first P z st : Forall inner P ->
+  close_all (P ++ ")"%char :: z) st
+  = ('(st1, pos1) <- close_branch (P ++ ")"%char :: z) 0 st ;; close_loop (length (P ++ ")"%char :: z)) (P ++ ")"%char :: z) pos1 st1).
+Proof.
+  intros HP. unfold close_all. rewrite close_loop_0, !fnc0_spec.
+  rewrite (find_idx_inner _ fnc_next_open HP incl_open), (find_idx_inner _ fnc_next_close HP incl_close). cbn [bind find_idx].
+  change (str_in [")"%char] fnc_next_close) with true. change (str_in [")"%char] fnc_next_open) with false. cbv iota.
+  assert (E : Nat.ltb (length P + 0) (length P + Datatypes.S (find_idx z fnc_next_open)) = true) by (apply Nat.ltb_lt; lia).
+  now rewrite E.
+Qed.
+Lemma close_loop_stop_after P z st :
+  Nat.ltb (find_idx z fnc_next_close) (find_idx z fnc_next_open) = false ->
+  close_loop (length (P ++ ")"%char :: z)) (P ++ ")"%char :: z) (Datatypes.S (length P)) st = Ok st.
+Proof.
+  intros H. assert (El : length (P ++ ")"%char :: z) = Datatypes.S (length P + length z)) by (rewrite app_length; cbn [length]; lia).
+  rewrite El. apply close_loop_stop; [rewrite El; lia|]. now rewrite skipn_after.
+Qed.
+(** behind a closing without multiplier, in front of the next node, no further closing *)
+Lemma cont_no_close a k : cont k ->
+  Nat.ltb (find_idx (osym_str a ++ k) fnc_next_close) (find_idx (osym_str a ++ k) fnc_next_open) = false.
+Proof. intros Hk. destruct a as [s|]; [destruct s|]; destruct Hk; reflexivity. Qed.
+Lemma close_all_lin_some fo i a k st top stk : lin_ok fo i = true -> l_close i = Some a -> cont k ->
+  s_branch_anchor st = rev (top :: stk) ->
+  close_all (lin_tail_str i ++ k) st = Ok (closed_state st top stk a).
+Proof.
+  intros Hok Hc Hk Hba. unfold close_all. rewrite close_loop_0.
+  destruct (look_lin fo i k Hok Hk) as (io & ic & -> & -> & Elt). cbn [bind]. rewrite Elt, Hc. cbn [is_some].
+  rewrite (close_lin fo i a k st top stk Hok Hc Hk Hba). cbn [bind].
+  assert (El : length (lin_tail_str i ++ k) = Datatypes.S (length (lin_prefix i) + length (osym_str a ++ k))).
+  { rewrite lin_tail_split, Hc. cbn [close_str app]. rewrite app_length. cbn [length]. lia. }
+  rewrite El. apply close_loop_stop; [rewrite El; lia|].
+  rewrite lin_tail_split, Hc. cbn [close_str app]. rewrite skipn_after. now apply cont_no_close.
+Qed.
+Lemma close_all_lin_none fo i k st : lin_ok fo i = true -> l_close i = None -> cont k ->
+  close_all (lin_tail_str i ++ k) st = Ok st.
+Proof.
+  intros Hok Hc Hk. destruct (look_lin fo i k Hok Hk) as (io & ic & Eio & Eic & Elt). rewrite Hc in Elt.
+  now apply (close_all_stop _ st io ic).
 Qed.
 
 (** ** one iteration of the reader's loop, restated over the pieces analysed above *)
@@ -419,9 +504,7 @@ Lemma node_step_eq fo st pc nm rest :
    let st1 := {| s_g := g; s_current := current; s_branch_anchor := branch_anchor; s_recipes := recipes;
                  s_prev_node := prev_node; s_branching := branching; s_cycle := r_cyc rs;
                  s_pbo := pbo; s_attributes := Some a; s_base_anchor := s_base_anchor st |} in
-   io <- fnc0 rest fnc_next_open ;;
-   ic <- fnc0 rest fnc_next_close ;;
-   if Nat.ltb ic io then close_branch rest st1 else Ok st1).
+   close_all rest st1).
 Proof. reflexivity. Qed.
 
 (** the node loop against the machine's copies *)
@@ -565,10 +648,9 @@ Proof.
   pose proof (f_equal snd Sr) as Eces. cbn [snd] in Eces. pose proof (f_equal fst Sr) as Ecyc. cbn [fst] in Ecyc.
   rewrite Eces. destruct (add_cycle_edges g2 _) as [g3|e]; cbn [bind]; [|reflexivity].
   (* 255-332 *)
-  destruct (look_lin fo i k Hok Hk) as (io & ic & Eio & Eic & Elt). rewrite Eio. cbn [bind]. rewrite Eic. cbn [bind]. rewrite Elt.
-  destruct (l_close i) as [a'|] eqn:Ecl; cbn [is_some].
+  destruct (l_close i) as [a'|] eqn:Ecl.
   - destruct stack0 as [|top stk] eqn:Es; [exfalso; apply Hst; [discriminate|exact Es]|].
-    rewrite (close_lin fo i a' k _ top stk Hok Ecl Hk) by reflexivity.
+    rewrite (close_all_lin_some fo i a' k _ top stk Hok Ecl Hk) by reflexivity.
     eexists. split; [reflexivity|]. split.
     + unfold Rel, closed_state. cbn.
       repeat split; try reflexivity; try assumption.
@@ -576,7 +658,7 @@ Proof.
       * rewrite Hc. now destruct a'.
       * discriminate.
     + cbn [m_stack closed_state s_recipes]. intros -> _. reflexivity.
-  - eexists. split; [reflexivity|]. split.
+  - rewrite (close_all_lin_none fo i k _ Hok Ecl Hk). eexists. split; [reflexivity|]. split.
     + unfold Rel. cbn. repeat split; try reflexivity; try assumption. discriminate.
     + cbn [m_stack s_recipes]. intros Es H0. rewrite (Hrc1 Es). unfold stack0 in Es. destruct (l_open i); [discriminate|].
       rewrite (Hrc0 eq_refl). now apply H0.
